@@ -78,6 +78,7 @@ type fsm13 struct {
 	establishment *Establishment
 	postHandshake *postHandshake
 	received      recvHandshakeLease // keeps the reader paused across a prepare/send transition
+	lastSend      time.Time          // when the current flight was last written
 }
 
 func NewFSM13(
@@ -299,6 +300,7 @@ func (s *fsm13) send(ctx context.Context, conn Conn) (State, error) {
 	if err != nil {
 		return StateErrored, err
 	}
+	s.lastSend = time.Now()
 	s.flightACK.track(result)
 	finished, err := s.afterSend(ctx, conn, s.currentFlight)
 	if err != nil {
@@ -421,10 +423,12 @@ func (s *fsm13) handleReceivedFlight( //nolint:cyclop
 		if ackErr := sendACK(ctx, conn, s.state.LocalEpoch(), received.RecordsToACK); ackErr != nil {
 			return receivedFlightTransition{}, ackErr
 		}
-		if received.IsRetransmit && s.currentFlight == dtlsflight13.Flight2 && len(s.flights) != 0 {
+		if received.IsRetransmit && s.currentFlight == dtlsflight13.Flight2 && len(s.flights) != 0 &&
+			time.Since(s.lastSend) >= s.cfg.InitialRetransmitInterval/2 {
 			// A HelloRetryRequest is never re-sent by the timer. The client
 			// repeating its first ClientHello means the request was lost, so
-			// answer the retransmission with the same request.
+			// answer the retransmission with the same request: once per
+			// retransmission, not once per fragment of it.
 			return receivedFlightTransition{state: StateSending}, nil
 		}
 
